@@ -119,6 +119,7 @@ class Interp:
         self.steps = 0
         self.trace = []
         self.visited = []
+        self.depth = 0
         self.unmodelled = set()
 
     # -- places -----------------------------------------------------------------------------
@@ -324,6 +325,10 @@ class Interp:
                 return Enum("(tuple)", None)
             if n == "any":
                 return KD(set(KINDS))
+            if n in ("never", "undefined"):
+                return KD(set())
+            if n in ("object", "array"):
+                return KD({n})
         m = re.search(r"value::kind::comparison::<impl value::kind::Kind>::(is|contains)_(\w+)$", cal)
         if m and m.group(2) in KINDS:
             k = self.kd(a[0]).kind
@@ -389,8 +394,12 @@ class Interp:
                 d = self.td(a[0]); d.kind = set(self.kd(a[1]).kind); return d
             if n == "kind":
                 return Ref(KD(owner=self.td(a[0])))
-            if n.startswith("or_") and n[3:] in KINDS:
-                d = self.td(a[0]); d.kind = d.kind | {n[3:]}; return d
+            if (n.startswith("or_") or n.startswith("add_")) and n.split("_", 1)[1] in KINDS:
+                d = self.td(a[0]); d.kind = d.kind | {n.split("_", 1)[1]}; return d
+            if n in ("restrict_array", "restrict_object"):
+                d = self.td(a[0]); return TD({n[9:]}, d.fallible)
+            if n in ("impure", "pure", "with_purity", "collect_subtypes", "upgrade_undefined"):
+                return self.td(a[0])
             if n == "at_path":
                 d = self.td(a[0]); return TD(set(KINDS) | set(d.kind), d.fallible)
             if n in ("returns", "returns_mut"):
@@ -438,6 +447,8 @@ class Interp:
             self.visited.append(e.name)
             out_state = ST(st.label | {e.name}) if isinstance(st, ST) else UNK
             return Enum("compiler::state::TypeInfo", None, {"state": out_state, "result": self.exprs[e.name].copy()})
+        if re.search(r"as compiler::expression::Expression>::type_def$", cal) or cal == "compiler::expression::Expression::type_def":
+            return self.exprs[self.expr_of(a[0]).name].copy()
         if cal == "<compiler::state::TypeState as std::clone::Clone>::clone":
             st = self.deref(a[0])
             return st.copy() if isinstance(st, ST) else UNK
@@ -466,6 +477,26 @@ class Interp:
             raise Undecided("constant_arithmetic_produces_nan on constants")
         if "::{closure#" in cal and self.facts.has(cal):
             return self.call_body(cal, a)
+        m = re.search(r"std::option::Option::<.*>::(is_none|is_some|expect|unwrap|unwrap_or_default)$", cal.replace("<T>", "<.>")) or \
+            re.search(r"std::option::Option::<T>::(is_none|is_some|expect|unwrap)$", cal)
+        if m:
+            v = self.deref(a[0])
+            if isinstance(v, Enum) and v.adt == "std::option::Option":
+                if m.group(1) == "is_none":
+                    return v.variant == "None"
+                if m.group(1) == "is_some":
+                    return v.variant == "Some"
+                if v.variant == "Some":
+                    return v.fields.get("0", UNK)
+                raise Undecided("unwrap of None")
+            return UNK
+        # local helpers of the stdlib (`fn type_def() -> TypeDef`, json_type_def, ...) are interpreted, not summarised
+        if self.facts.has(cal) and (cal.startswith("stdlib::") or cal.startswith("<stdlib::")) and self.depth < 4:
+            self.depth += 1
+            try:
+                return self.call_body(cal, a)
+            finally:
+                self.depth -= 1
         if re.search(r"core::panicking::|std::fmt::Arguments", cal):
             if "panicking" in cal:
                 raise Undecided("reaches a panic (%s)" % cal)
